@@ -52,6 +52,8 @@ def model_list():
     # chordless 4-cycle (needs fill-in: the generation parents must come from the triangulated cliques) and the diamond
     out.append({'k': 4, 'edges': [(A[0], A[1]), (A[1], A[2]), (A[2], A[3]), (A[3], A[0])], 'name': 'cycle4', 'scale': 2.5})
     out.append({'k': 4, 'edges': [(A[0], A[1]), (A[1], A[2]), (A[2], A[3]), (A[3], A[0]), (A[0], A[2])], 'name': 'diamond4'})
+    out.append({'k': 4, 'edges': [(A[0], A[1]), (A[2], A[3])], 'name': 'two-edges4', 'scale': 2.0})
+    out.append({'k': 4, 'edges': [(A[3], A[2]), (A[1], A[0])], 'name': 'two-edges4-rev', 'scale': 2.0})
     return out
 
 
